@@ -132,6 +132,28 @@ def expected_run_links(pkg, prefix):
     return out
 
 
+def live_bookmarks(nodes):
+    """names of the w:bookmarkStart elements the reader reaches, in order"""
+    out = []
+    for n in nodes:
+        if not isinstance(n, XmlElement):
+            continue
+        if n.name == "w:bookmarkStart":
+            if n.attributes.get("w:name") is not None:
+                out.append(n.attributes["w:name"])
+        elif n.name in ("w:del", "w:rPr", "w:pPr", "w:delText", "w:t", "w:instrText", "w:tblPr", "w:trPr", "w:tcPr"):
+            continue
+        elif n.name == "mc:AlternateContent":
+            out += live_bookmarks(n.find_child_or_null("mc:Fallback").children)
+        elif n.name == "w:sdt":
+            if n.find_child_or_null("w:sdtPr").find_child("wordml:checkbox") is None:
+                out += live_bookmarks(n.find_child_or_null("w:sdtContent").children)
+        elif n.name in ("w:p", "w:r", "w:tbl", "w:tr", "w:tc", "w:hyperlink", "w:ins", "w:smartTag", "w:pict", "v:shape", "v:textbox",
+                        "w:txbxContent", "w:drawing", "w:object", "v:group", "v:rect", "v:roundrect"):
+            out += live_bookmarks(n.children)
+    return out
+
+
 def text_links(forest, link, out):
     for n in forest:
         if "name" in n:
@@ -176,6 +198,10 @@ def oracle(pkg, prefix, html, comment_mapping):
         for k, v in exp.items():
             if k in got and got[k] != v:
                 return "text %r is linked to %r, the document links it to %r" % (k, got[k], v)
+    # every bookmark that is read yields an element whose id is id_prefix + its name (Word's own cursor bookmark _GoBack excepted)
+    for name in live_bookmarks(pkg.body):
+        if name != "_GoBack" and prefix + name not in ids:
+            return "bookmark %r has no element with id %r in the output" % (name, prefix + name)
     # note references: k-th reference labelled [k], k-th li is its note, back-link returns
     refs = [e for e in els if e["name"] == "a" and re.match("^" + re.escape(prefix) + r"(footnote|endnote)-ref-", e["attrs"].get("id", ""))]
     for k, e in enumerate(refs):
